@@ -16,6 +16,7 @@ import (
 	"fmt"
 	"math/big"
 	"os"
+	"strconv"
 	"time"
 
 	kcrypto "github.com/dapr/kit/crypto"
@@ -221,10 +222,19 @@ func (fx *fixtures) octKey(b []byte) *keyOps {
 	return o
 }
 
+// seedOff shifts every generated byte pattern (VERIF_SEED): different seeds use different key / data bytes.
+var seedOff = func() byte {
+	n, _ := strconv.Atoi(os.Getenv("VERIF_SEED"))
+	if n < 1 {
+		n = 1
+	}
+	return byte((n - 1) * 37)
+}()
+
 func seqBytes(n int, start byte) []byte {
 	b := make([]byte, n)
 	for i := range b {
-		b[i] = start + byte(i)
+		b[i] = start + seedOff + byte(i)
 	}
 	return b
 }
